@@ -135,6 +135,31 @@ TimeFormat(t) ==          \* labella.scale.mytimeformat on an instant <<day, ms>
 C07_TickText == \A B \in Backends : Len(B.ticks) = Len(B.tickvals) => \A k \in 1..Len(B.ticks) :
     IF B.scale = "linear" THEN Abs(B.ticks[k].textv3 - B.tickvals[k].v3) <= B.tickvals[k].tol3
     ELSE B.ticks[k].text = B.tickvals[k].fmt
+\* ... and, whatever the format, the text must DENOTE the tick's instant: every number in it is one of the instant's calendar or
+\* clock fields (a 12-hour value only next to an AM/PM mark), every word a month or weekday name (or abbreviation) or the right
+\* AM/PM mark - "01:05" on a tick at 13:05 is not the formatted value of that position
+LowerMonth(m) == <<"january", "february", "march", "april", "may", "june", "july", "august", "september", "october", "november", "december">>[m]
+LowerDay(w) == <<"sunday", "monday", "tuesday", "wednesday", "thursday", "friday", "saturday">>[w + 1]
+Prefix3(str) == SubSeq(str, 1, 3)
+TextDenotes(tk, t) ==
+    LET c == CivilFromDays(t[1])
+        hh == t[2] \div 3600000
+        mi == (t[2] \div 60000) % 60
+        ss == (t[2] \div 1000) % 60
+        ms == t[2] % 1000
+        us == IF Len(t) >= 3 THEN t[3] ELSE 0
+        h12 == IF hh % 12 = 0 THEN 12 ELSE hh % 12
+        wd == Weekday(t[1])
+        marks == {tk.words[i] : i \in 1..Len(tk.words)} \cap {"am", "pm"}
+        fields == {c[1], c[1] % 100, c[2], c[3], hh, mi, ss, ms, ms * 1000 + us} \cup (IF marks # {} THEN {h12} ELSE {})
+    IN /\ Len(tk.nums) + Len(tk.words) >= 1
+       /\ \A i \in 1..Len(tk.nums) : tk.nums[i] \in fields
+       /\ \A i \in 1..Len(tk.words) : LET w == tk.words[i] IN
+              \/ w = LowerMonth(c[2]) \/ w = Prefix3(LowerMonth(c[2]))
+              \/ w = LowerDay(wd) \/ w = Prefix3(LowerDay(wd))
+              \/ (w = "am" /\ hh < 12) \/ (w = "pm" /\ hh >= 12)
+C07_TickTextDenotesPosition == \A B \in Backends : (B.scale # "linear" /\ Len(B.ticks) = Len(B.tickvals)) =>
+    \A k \in 1..Len(B.ticks) : TextDenotes(B.ticks[k], B.tickvals[k].t)
 Drift_TimeFormatModel == \A B \in Backends : B.scale # "linear" => \A k \in 1..Len(B.tickvals) : B.tickvals[k].fmt = TimeFormat(B.tickvals[k].t)
 
 \* ---------------------------------------------------------------- C08 (label spacing >= 3, layer gap >= 1)
